@@ -9,6 +9,13 @@ func verifHarnessC10() {
 	verifAssert(err == nil, "C10.open-err")
 	m := newVModel(len(kp.keys))
 	for i := range kp.keys {
+		if i >= kp.hot() {
+			// crowd keys: always present, never touched again
+			v := []byte{byte(i)}
+			verifAssert(db.Put(kp.keys[i], v) == nil, "C10.put-err")
+			m.put(i, v)
+			continue
+		}
 		switch verifChoice("setup", 3) {
 		case 1:
 			v := verifBytes("v", 1)
@@ -54,13 +61,13 @@ func verifHarnessC10() {
 	if verifParam("latewrites") == 1 {
 		switch verifChoice("late", 3) {
 		case 1:
-			ki := verifChoice("late-ki", len(kp.keys))
+			ki := verifChoice("late-ki", kp.hot())
 			v := verifBytes("late-v", 1)
 			verifAssert(db.Put(kp.keys[ki], v) == nil, "C10.late-put-err")
 			m.put(ki, v)
 			verifReach("late-write")
 		case 2:
-			ki := verifChoice("late-ki", len(kp.keys))
+			ki := verifChoice("late-ki", kp.hot())
 			verifAssert(db.Delete(kp.keys[ki]) == nil, "C10.late-delete-err")
 			m.del(ki)
 			verifReach("late-write")
@@ -85,7 +92,7 @@ func verifHarnessC10() {
 		var t []byte
 		if verifParam("ckeys") > 0 && verifChoice("tpool", 2) == 1 {
 			// concrete key families: the target is one of the (long) pool keys itself
-			t = kp.keys[verifChoice("tki", len(kp.keys))]
+			t = kp.keys[verifChoice("tki", kp.hot())]
 		} else {
 			tl := 1 + verifChoice("tlen", 2)
 			t = verifBytes("target", tl)
